@@ -220,6 +220,10 @@ _qual = "(e - a >= minDurationSlots and ite(a < sIdx, sIdx, a) < ite(e > eIdx, e
 _found = ("exists(k, 0, len({L}), {L}[k].start == T(self, ite(a < sIdx, sIdx, a)) and "
           "{L}[k].end == T(self, ite(e > eIdx, eIdx, e)))")
 _complete = ("forall(e, startIdx + 1, {hi}, forall(a, startIdx, e, implies(" + _maxrun + " and " + _qual + ", " + _found + ")))")
+# order: the list is in table order, its elements are non-empty and pairwise disjoint (so no run is reported twice)
+_ordered = ("forall(k, 0, len({L}), secs({L}[k].start) < secs({L}[k].end)) and "
+            "forall(k, 0, len({L}) - 1, secs({L}[k].end) <= secs({L}[k + 1].start))")
+_behind = "forall(k, 0, len(intervals), secs(intervals[k].end) <= secs(T(self, idx - duration)))"
 # the same statement over the parameters only (postcondition): window, minimum and scan range as the property reads
 ghost("DIq", ["sb", "d"], "trunc((secs(d) - secs(sb.startDate)) / sb.resolution)")
 ghost("DI", ["sb", "d"], "ite(DIq(sb, d) < 0, 0, ite(DIq(sb, d) >= sb.size, sb.size - 1, DIq(sb, d)))")
@@ -259,14 +263,16 @@ contract(
     params=_scan_params, ret=List(Ref("TimeInterval")),
     consts={"_USE_CYTHON": False},
     requires=[("wf", "SBwf(self)"), ("min", "minDuration >= 0")],
-    ensures=[("complete", _over_params(_complete.format(hi="endIdx + 1", L="result")))],
+    ensures=[("complete", _over_params(_complete.format(hi="endIdx + 1", L="result"))),
+             ("ordered", _ordered.format(L="result"))],
     calls={
         "self.dateToIdx": ("contract", SB + "::Scoreboard.dateToIdx#py"),
         "self.idxToDate": ("contract", SB + "::Scoreboard.idxToDate#py"),
         "TimeInterval": ("new", "TimeInterval", ["start", "end"]),
         "intervals.append": ("check", _scan_site, None),
     },
-    loops={0: {"inv": _scan_inv + [("complete", _complete.format(hi="idx", L="intervals"))],
+    loops={0: {"inv": _scan_inv + [("complete", _complete.format(hi="idx", L="intervals")),
+                                   ("ordered", _ordered.format(L="intervals")), ("behind", _behind)],
                "decreases": "endIdx + 1 - idx"}},
     locals=_scan_locals,
 )
@@ -293,7 +299,8 @@ contract(
     requires=[("start", "start_idx >= 0"), ("res", "resolution >= 1"), ("size", "size >= 1 and len(sb) == size"),
               ("end", "end_idx <= size - 1"), ("window", "0 <= s_idx and e_idx <= size - 1"),
               ("c-horizon", f"size * resolution <= {I32}")],
-    ensures=[("complete", _cy(_complete.format(hi="endIdx + 1", L="result")))],
+    ensures=[("complete", _cy(_complete.format(hi="endIdx + 1", L="result"))),
+             ("ordered", _ordered.format(L="result"))],
     calls={"interval_class": ("new", "TimeInterval", ["start", "end"]),
            "intervals.append": ("check", [
                ("is-run", "forall(j, start, current_idx, app(predicate, sb[j]))"),
@@ -314,6 +321,7 @@ contract(
         ("left-maximal", "implies(duration > 0 and idx - duration > start_idx, not app(predicate, sb[idx - duration - 1]))"),
         ("gap", "implies(duration == 0 and idx > start_idx and idx <= end_idx, not app(predicate, sb[idx - 1]))"),
         ("complete", _cy(_complete.format(hi="idx", L="intervals"))),
+        ("ordered", _ordered.format(L="intervals")), ("behind", _cy(_behind)),
     ], "decreases": "end_idx + 1 - idx"}},
     locals={"intervals": List(Ref("TimeInterval")), "val": Slot},
 )
@@ -331,7 +339,8 @@ contract(
                           f"(secs(iv.start) - secs(self.startDate)) / self.resolution <= {I32} and "
                           f"-{I32} <= (secs(iv.end) - secs(self.startDate)) / self.resolution and "
                           f"(secs(iv.end) - secs(self.startDate)) / self.resolution <= {I32}")],
-    ensures=[("complete", _over_params(_complete.format(hi="endIdx + 1", L="result")))],
+    ensures=[("complete", _over_params(_complete.format(hi="endIdx + 1", L="result"))),
+             ("ordered", _ordered.format(L="result"))],
     calls={
         "self.dateToIdx": ("contract", SB + "::Scoreboard.dateToIdx#cy"),
         "collect_intervals_fast": ("contract", CY + "::collect_intervals_fast"),
